@@ -315,6 +315,26 @@ def cases(draw):
         for arg in g.choice([[("nil",), I(3)], [I(3), ("nil",)], [("nil",), ("nil",)]]):
             tail.append(("print", ("call", V("orf"), [arg])))
         c.seen.add(("or", "nil")); c.seen.add(("or", "present"))
+    if g.chance(30):
+        # `a ?= <cell>` copies the VALUE of a list element / a field: a later write to that cell must not show through `a`
+        src = g.choice(["element", "field", "element-in-if", "field-in-while"])
+        g.label("unwrap-from-cell-then-write:" + src)
+        tail.append(("decl", "wl", ("list", OI), ("list", [I(1), ("nil",), I(3)]), ()))
+        tail.append(("decl", "wo", None, ("new", "KO", [I(5)]), ()))
+        tail.append(("decl", "wa", OI, ("nil",), ()))
+        cell = ("index", V("wl"), I(0)) if src.startswith("element") else ("field", V("wo"), "o")
+        write = ("seti", V("wl"), I(0), I(100)) if src.startswith("element") else ("setf", V("wo"), "o", I(100))
+        if src.endswith("-in-if"):
+            tail.append(("if", ("unwrap", "wa", cell), [write, ("print", ("or", V("wa"), I(0 - 1)))], [("print", S("absent"))]))
+        elif src.endswith("-in-while"):
+            tail.append(("decl", "wn", None, I(0), ()))
+            tail.append(("while", ("bin", "&&", ("bin", "<", V("wn"), I(2)), ("unwrap", "wa", cell)), [("decl", "wn", None, ("bin", "+", V("wn"), I(1)), ()), write, ("print", ("or", V("wa"), I(0 - 1)))]))
+        else:
+            tail.append(("expr_unwrap", "wa", cell))
+            tail.append(write)
+        tail.append(("print", ("or", V("wa"), I(0 - 1))))
+        tail.append(("print", ("bin", "==", V("wa"), I(1 if src.startswith("element") else 5))))
+        tail.append(("print", ("or", cell, I(0 - 2))))
     if in_fn:
         g.label("in-function")
         stmts.append(("decl", "body", None, ("fn", [("par", OI), ("pas", OS)], None, [("decl", "o_par", OI, V("par"), ())] + body), ()))
